@@ -101,3 +101,66 @@ Section Race.
 End Race.
 
 Arguments Test {V}. Arguments Compute {V}. Arguments Store {V}. Arguments Done {V}.
+
+(* ---- a process as a state machine (the shape the history check tests) ----
+   [S]: the whole state of the process -- the immutable fields of every object AND everything else
+   (caches, class attributes, module-level configuration objects).  [Op]: a call with its arguments.
+   [step s o] = (state after the call, result).  A history is a list of calls; [exec] is the fold of
+   [step] over it; [result_at s h o] is what call [o] returns when issued after history [h].
+   [result_at s [] o] is the value "first thing in a fresh process". *)
+Section Machine.
+  Variable S Op R : Type.
+  Variable step : S -> Op -> S * R.
+
+  Definition exec (s : S) (h : list Op) : S := fold_left (fun s o => fst (step s o)) h s.
+  Definition result_at (s : S) (h : list Op) (o : Op) : R := snd (step (exec s h) o).
+  (* every result of a history, in order (what a worker reports) *)
+  Fixpoint results (s : S) (h : list Op) : list R :=
+    match h with [] => [] | o :: t => snd (step s o) :: results (fst (step s o)) t end.
+End Machine.
+
+(* the memo model above is such a machine: operations [op], results [option V] *)
+Definition memo_exec (F : Type) (feqb : F -> F -> bool) (M : Type) (meqb : M -> M -> bool) (V : Type)
+    (sem : M -> (F -> V) -> V) (is_cached : M -> bool) :=
+  exec (state F M V) (op F M V) (option V) (step F feqb M meqb V sem is_cached).
+
+(* a two-operation machine with hidden state, used as the satisfiability / refutation witness:
+   state = (immutable field, hidden "last argument seen"); [leaky] returns the hidden part too *)
+Definition clean_step (s : nat * nat) (o : nat) : (nat * nat) * nat := ((fst s, o), fst s + o).
+Definition leaky_step (s : nat * nat) (o : nat) : (nat * nat) * nat := ((fst s, o), fst s + o + snd s).
+
+(* ---- check-then-fill of a shared table IN PLACE (the race the schedule stream of the check looks for) ----
+   A lazily initialised lookup table (word -> index) shared by all threads.  Thread program for lookup k:
+     test:   if the shared table is not empty: go to lookup        (the "already initialised?" check)
+     fill i: insert the i-th source entry into the SHARED table; after the last one go to lookup
+     lookup: return find k in the shared table
+   Unlike the test/compute/store protocol above (build privately, publish with one store) a second thread
+   can pass the test while the first is still filling and look its key up in a partial table. *)
+Section FillRace.
+  Variable src : list (nat * nat).
+
+  Inductive fpc := FTest | FFill (i : nat) | FLookup | FDone (r : option nat).
+  Record fconfig := mkF { table : list (nat * nat); f0 : fpc; f1 : fpc }.
+
+  Fixpoint tfind (k : nat) (t : list (nat * nat)) : option nat :=
+    match t with [] => None | (a, b) :: r => if Nat.eqb a k then Some b else tfind k r end.
+
+  Definition fthread (k : nat) (t : list (nat * nat)) (p : fpc) : list (nat * nat) * fpc :=
+    match p with
+    | FTest => match t with [] => (t, FFill 0) | _ => (t, FLookup) end
+    | FFill i => match nth_error src i with
+                 | Some e => (t ++ [e], if Nat.eqb (S i) (length src) then FLookup else FFill (S i))
+                 | None => (t, FLookup)
+                 end
+    | FLookup => (t, FDone (tfind k t))
+    | FDone r => (t, FDone r)
+    end.
+
+  (* thread 0 looks up k0, thread 1 looks up k1 *)
+  Definition fsched_step (k0 k1 : nat) (c : fconfig) (who : bool) : fconfig :=
+    if who then let '(t, p) := fthread k1 (table c) (f1 c) in mkF t (f0 c) p
+    else let '(t, p) := fthread k0 (table c) (f0 c) in mkF t p (f1 c).
+
+  Definition frun (k0 k1 : nat) (sch : list bool) : fconfig :=
+    fold_left (fsched_step k0 k1) sch (mkF [] FTest FTest).
+End FillRace.
